@@ -395,6 +395,12 @@ pub fn build<G: K>(defs: &Defs, env: &Env, e: &Sexp) -> G {
                     let b = build_op_body::<G>(defs, env, args);
                     with_slices(&b, |s| Conde::<U, E, G>::from_conjunctions(s).cast_into())
                 }
+                "reuse" => {
+                    // ONE goal value used n times in a conjunction (goal values are cheap clones of one another): (reuse n g)
+                    let n = args[0].int() as usize;
+                    let g = build::<G>(defs, env, &args[1]);
+                    conj_arr(&vec![g; n])
+                }
                 "disj" => {
                     // the public binary-disjunction API (not what the macros expand conde to): (disj new|vec|array|conjs clause...)
                     use proto_vulcan::operator::disj::Disj;
